@@ -280,6 +280,19 @@ class Unit:
         fs, _, bo, fe = find_fn(text, masked, fname, nth, lo, hi)
         rec['sha256'] = hashlib.sha256(text[fs:fe].encode()).hexdigest()
         self.items.append(rec)
+        if any(x.split()[0] == 'unexternal' for x in subs):
+            # the unit verifies a function that the syntactic scan marked external (after a rewrite rule removed the
+            # unsupported construct): drop the auto attribute line in front of it
+            subs = [x for x in subs if x.split()[0] != 'unexternal']
+            ls = text.rfind('\n', 0, fs) + 1
+            prev_s = text.rfind('\n', 0, ls - 1) + 1
+            prev = text[prev_s:ls]
+            if 'vx:auto' in prev and 'external_body' in prev:
+                text = text[:prev_s] + text[ls:]
+                hi -= (ls - prev_s)
+                rec['transformations'].append(dict(rule='T8', what='auto external_body removed: function verified by this unit'))
+            else:
+                raise LostAnchor('unexternal: fn %s is not auto-external' % fname)
         seg = text[lo:hi]
         seg = self._apply_subs(seg, subs, fname, rec, nth=nth)
         return text[:lo] + seg + text[hi:]
